@@ -29,7 +29,7 @@ def population(ctx, flavour):
     q = ctx.quick()
     if flavour == "values":
         return (["-nrand", 30 if q else 260, "-nexpr", 8 if q else 60, "-ndp", 6 if q else 40, "-nctx", 4 if q else 40,
-                 "-nlong", 8 if q else 60, "-valued", 100],
+                 "-nlong", 8 if q else 60, "-nprobe", 6 if q else 40, "-valued", 100],
                 ["-limit", 60 if q else 200, "-nrandom", 40 if q else 120])
     if flavour == "expr":
         return (["-nexpr", 30 if q else 300, "-valued", 100], ["-limit", 150 if q else 1500, "-kmax", 7, "-nrandom", 40 if q else 150])
